@@ -488,3 +488,34 @@ func SameField(a, b *types.Var) bool {
 	}
 	return a.Origin() == b.Origin()
 }
+
+// IsParam reports whether v is parameter p or a load of the heap/stack cell
+// p was spilled to (go/ssa spills parameters captured by closures).
+func IsParam(v ssa.Value, p *ssa.Parameter) bool {
+	v = Unwrap(v)
+	if v == ssa.Value(p) {
+		return true
+	}
+	u, ok := v.(*ssa.UnOp)
+	if !ok || u.Op != token.MUL {
+		return false
+	}
+	a, ok := u.X.(*ssa.Alloc)
+	if !ok {
+		return false
+	}
+	refs := a.Referrers()
+	if refs == nil {
+		return false
+	}
+	n := 0
+	for _, r := range *refs {
+		if st, ok := r.(*ssa.Store); ok && st.Addr == ssa.Value(a) {
+			n++
+			if st.Val != ssa.Value(p) {
+				return false
+			}
+		}
+	}
+	return n == 1
+}
